@@ -467,8 +467,34 @@ def check_deterministic(ctx):
         conds = util.guards_of(lp, f)
         if conds != {'success', '0<sim.get_number_of_rules()'}:
             problems.append('re-application guarded by %s' % sorted(conds))
+    all_calls = [c_ for c_ in ast.walk(f) if isinstance(c_, ast.Call) and isinstance(c_.func, ast.Attribute)
+                 and c_.func.attr in ('apply_repeated_rules', 'apply_repeated_volume_rules')]
+    if len(loops) == 1 and any(not any(c_ is x for x in ast.walk(loops[0])) for c_ in all_calls):
+        problems.append('rules are also applied outside the row loop (a row would get them twice)')
     ctx.ob('R9.5-deterministic', 'rows', not problems, ctx.loc('simulator', f),
-           'after a successful integration every output row i is re-ruled at timepoints[i] when the model has rules', '; '.join(problems))
+           'after a successful integration every output row i is re-ruled at timepoints[i] when the model has rules - once', '; '.join(problems))
+    # the integrator's starting state is the interface's initial state as it is: odeint copies it into the first row, and that row gets
+    # the rules from the row loop
+    problems = []
+    ode = [c_ for c_ in ast.walk(f) if isinstance(c_, ast.Call) and src(c_.func).split('.')[-1] == 'odeint']
+    if len(ode) != 1 or len(ode[0].args) < 2 or not isinstance(ode[0].args[1], ast.Name):
+        raise AnalysisError('_helper_simulate: the odeint call was not found')
+    x0 = ode[0].args[1].id
+    defs = util.single_defs(f)
+    d0 = defs.get(x0)
+    if d0 is None or src(d0).replace(' ', '') != 'sim.get_initial_state().copy()':
+        problems.append('%s is %s' % (x0, src(d0) if d0 is not None else 'assigned more than once'))
+    for n_ in ast.walk(f):
+        if isinstance(n_, ast.Call) and n_ is not ode[0] and any(isinstance(x, ast.Name) and x.id == x0 for a_ in list(n_.args) + [k_.value for k_ in n_.keywords] for x in ast.walk(a_)):
+            if src(n_.func) not in ('len', 'print', 'str', 'np.shape', 'np.isnan', 'np.isfinite'):
+                problems.append('%s is handed to %s before the integration' % (x0, src(n_.func)))
+        if isinstance(n_, (ast.Assign, ast.AugAssign)):
+            for t_ in (n_.targets if isinstance(n_, ast.Assign) else [n_.target]):
+                if isinstance(t_, ast.Subscript) and isinstance(t_.value, ast.Name) and t_.value.id == x0:
+                    problems.append('%s is written: %s' % (x0, util.stmt_key(n_)[:60]))
+    ctx.ob('R9.5-deterministic', 'initial-state', not problems, ctx.loc('simulator', f),
+           "the state the integration starts from is a copy of the interface's initial state, untouched (its row gets the rules with all the others)",
+           '; '.join(sorted(set(problems))))
 
 
 # ------------------------------------------------------------------------------ R9.6
@@ -665,6 +691,14 @@ def check(ctx):
         c05.check_loop(sub, key)
     for rule, key, ok, where, what, detail in sub.got:
         if rule in ('R5.2-order', 'R5.2-choice', 'R5.2-lambda'):
+            ctx.ob('R9.3-rates-after-rules', '%s/%s' % (rule, key), ok, where, what, detail)
+    # a row satisfies a rule only if nothing edits the rule's target between the rule and the recording: the interface methods that are
+    # handed the state to read it (propensity evaluation, safe-mode count check) never store into it (C06 R6.1-state-readers) - re-emitted
+    from . import c06
+    sub = SubCtx(ctx)
+    c06.check_state_readers(sub)
+    for rule, key, ok, where, what, detail in sub.got:
+        if rule == 'R6.1-state-readers':
             ctx.ob('R9.3-rates-after-rules', '%s/%s' % (rule, key), ok, where, what, detail)
     # the lineage loop has its own propensity slot: same demand
     sl = simloop.SimLoop(ctx, 'Lineage')
